@@ -57,7 +57,9 @@ def run(ctx, module, cfg=None, mode="check", workers=16, depth=None, num=None, s
             f.write(base + "\nCONSTANTS\n" + "\n".join("  %s = %s" % kv for kv in constants.items()) + "\n")
         cfg = cfg2
     meta = os.path.join(ctx.workdir, "tlcmeta%d" % int(time.time() * 1e6))
-    args = ["java", "-XX:+UseParallelGC", "-Xmx12g"]
+    jtmp = os.path.join(ctx.workdir, "jtmp")            # TLC drops a tlc-<n> directory into java.io.tmpdir per run:
+    os.makedirs(jtmp, exist_ok=True)                    # keep it inside the check's scratch directory, not in /tmp
+    args = ["java", "-XX:+UseParallelGC", "-Xmx12g", "-Djava.io.tmpdir=" + jtmp]
     if dfs:
         args.append("-Dtlc2.tool.queue.IStateQueue=StateDeque")
     args += ["-cp", JAR, "tlc2.TLC", "-metadir", meta, "-noGenerateSpecTE", "-config", cfg, "-workers", str(workers)]
